@@ -115,7 +115,7 @@ class CoreMixin:
         if head == 'arr':
             return Obj(mk('ref'), 'ndarray', 'arr', parts[1], int(parts[2]) if len(parts) > 2 else 1)
         if head == 'seq':
-            return Obj(mk('ref'), 'sequence', 'seq', parts[1] if len(parts) > 1 else 'ref', 1)
+            return Obj(mk('ref'), parts[2] if len(parts) > 2 else 'sequence', 'seq', parts[1] if len(parts) > 1 else 'ref', 1)
         if head == 'any':
             return Obj(mk('ref'), None)
         raise Unsupported('sort spec %r' % spec)
@@ -137,7 +137,7 @@ class CoreMixin:
                 self.add_fact(('clen', term.get_id()), z3.And(ln == int(parts[3]), term != NONE))
             return Obj(term, 'ndarray', 'arr', parts[1], int(parts[2]) if len(parts) > 2 else 1)
         if head == 'seq':
-            return Obj(term, 'sequence', 'seq', parts[1] if len(parts) > 1 else 'ref', 1)
+            return Obj(term, parts[2] if len(parts) > 2 else 'sequence', 'seq', parts[1] if len(parts) > 1 else 'ref', 1)
         return Obj(term, None)
 
     # ---- heap
